@@ -89,13 +89,14 @@ int main(void) {
             else printf("ok %zu %016llx calls=%d consumed=%zu zeros=%s last=%s\n", produced, (unsigned long long)XXH64(out, produced, 0), calls, consumed, zl ? zeros : "-", r == 0 ? "0" : "+");
             free(in); free(out);
         } else if (!strcmp(op, "pledge")) {
-            /* pledge <pledged|-1> <total> <chunks csv> <endmode: 0 end-with-last-chunk, 1 separate end call, 2 endStream legacy> */
-            long long pl = atoll(strtok(NULL, " ")); size_t total = (size_t)strtoull(strtok(NULL, " "), NULL, 10); char* cs = strtok(NULL, " "); int mode = atoi(strtok(NULL, " "));
+            /* pledge <pledged|-1> <total> <chunks csv> <endmode: 0 end-with-last-chunk, 1 separate end call, 2 endStream legacy> [nbWorkers: several 512 KB jobs] */
+            long long pl = atoll(strtok(NULL, " ")); size_t total = (size_t)strtoull(strtok(NULL, " "), NULL, 10); char* cs = strtok(NULL, " "); int mode = atoi(strtok(NULL, " ")); char* wk = strtok(NULL, " "); int workers = wk ? atoi(wk) : 0;
             size_t ch[64]; int nc = 0, k; char* sv; char* t; unsigned char* src = (unsigned char*)malloc(total + 1); size_t cap = ZSTD_compressBound(total) + 1024;
             unsigned char* out = (unsigned char*)malloc(cap); size_t fed = 0, r = 0; ZSTD_outBuffer ob; size_t i; int failedAt = -1;
             for (i = 0; i < total; i++) src[i] = (unsigned char)(i * 31 + (i >> 7));
             for (t = strtok_r(cs, ",", &sv); t && nc < 64; t = strtok_r(NULL, ",", &sv)) ch[nc++] = (size_t)strtoull(t, NULL, 10);
             ZSTD_CCtx_reset(cctx, ZSTD_reset_session_and_parameters);
+            if (workers) { ZSTD_CCtx_setParameter(cctx, ZSTD_c_nbWorkers, workers); ZSTD_CCtx_setParameter(cctx, ZSTD_c_jobSize, 524288); ZSTD_CCtx_setParameter(cctx, ZSTD_c_compressionLevel, 1); }
             if (pl >= 0) r = ZSTD_CCtx_setPledgedSrcSize(cctx, (unsigned long long)pl);
             ob.dst = out; ob.size = cap; ob.pos = 0;
             for (k = 0; k < nc && !ZSTD_isError(r); k++) {
